@@ -44,59 +44,63 @@ theorem exploreC_succ (s : Simp) (o : Oracle) (cfg : Cfg) (codes : List (Nat × 
 /-! ### soundness -/
 
 section
-variable (p : Evm.Params) (S : Nat → Prop) (w0 : Evm.World) (cs0 : CState)
+variable (p : Evm.Params) (S : Nat → Prop) (w0 : Evm.World) (cs0 : CState) (H : Interp → Prop)
 
 /-- a worklist state is *good*: for every valuation satisfying its path and every initial frame related to the
     initial state, it is related to a concrete configuration every completion of which is a result of the whole
     transaction -/
 def GoodC (cs : CState) : Prop :=
-  ∀ I : Interp, I.Std → ∀ f0, RelC I p S w0 cs0 w0 f0 [] → Sat I cs.st.path →
+  ∀ I : Interp, I.Std → H I → ∀ f0, RelC I p S w0 cs0 w0 f0 [] → Sat I cs.st.path →
     ∃ w f kcs, RelC I p S w0 cs w f kcs ∧ ∀ r, RunStack p w f kcs r → Halts p w0 f0 r
 
 /-- an end is *good*: an untagged EVM outcome of kind `h` is — with its data evaluated — the outcome of the whole
     transaction under every valuation satisfying its path, in the world its maps describe -/
 def GoodEndC (ce : CEnd) : Prop :=
-  ce.e.tag = .normal → ∀ h, ce.e.out = .halt h → ∀ I : Interp, I.Std → ∀ f0, RelC I p S w0 cs0 w0 f0 [] →
+  ce.e.tag = .normal → ∀ h, ce.e.out = .halt h → ∀ I : Interp, I.Std → H I → ∀ f0, RelC I p S w0 cs0 w0 f0 [] →
     Sat I ce.e.st.path →
       ∃ w', Halts p w0 f0 (w', haltWith h (ce.e.data.map (·.eval I))) ∧
-        WRelM I S w0 w' (stoOf ce.stores) (evalLogs I ce.logs)
+        WRelM I S w0 w' (stoOf ce.stores) (evalLogs I ce.logs) (balSem I w0 ce.bal)
 
 end
 
 section
-variable {p : Evm.Params} {S : Nat → Prop} {w0 : Evm.World} {cs0 : CState}
+variable {p : Evm.Params} {S : Nat → Prop} {w0 : Evm.World} {cs0 : CState} {H : Interp → Prop}
 variable {s : Simp} {o : Oracle} {cfg : Cfg} {codes : List (Nat × List Nat)}
 
-theorem goodC_init : GoodC p S w0 cs0 cs0 :=
-  fun _ _ f0 h0 _ => ⟨w0, f0, [], h0, fun _ hr => hr⟩
+theorem goodC_init : GoodC p S w0 cs0 H cs0 :=
+  fun _ _ _ f0 h0 _ => ⟨w0, f0, [], h0, fun _ hr => hr⟩
 
 theorem stepC_good (hs : SimpSound s) (hmem : cfg.maxMem + 32 ≤ p.memLimit) (hdep : 1024 ≤ p.maxDepth)
     (hcodes : ∀ a, w0.codeOf a = codeOf codes a) (hS : ∀ a prog, codeOf codes a = some prog → S a)
-    (hcb : ∀ a prog, codeOf codes a = some prog → ∀ b ∈ prog, b < 256) {cs : CState}
-    (hg : GoodC p S w0 cs0 cs) :
-    (∀ cs' ∈ (stepC s o cfg codes cs).next, GoodC p S w0 cs0 cs') ∧
-    (∀ ce ∈ (stepC s o cfg codes cs).ends, GoodEndC p S w0 cs0 ce) := by
+    (hcb : ∀ a prog, codeOf codes a = some prog → ∀ b ∈ prog, b < 256)
+    (hob : cfg.balances = true → OracleSound o) (hH : ∀ I, H I → cfg.balances = true → BalHyp I cfg w0) {cs : CState}
+    (hg : GoodC p S w0 cs0 H cs) :
+    (∀ cs' ∈ (stepC s o cfg codes cs).next, GoodC p S w0 cs0 H cs') ∧
+    (∀ ce ∈ (stepC s o cfg codes cs).ends, GoodEndC p S w0 cs0 H ce) := by
   refine ⟨?_, ?_⟩
-  · intro cs' hm I hI f0 h0 hsat'
+  · intro cs' hm I hI hHI f0 h0 hsat'
     obtain ⟨ext, hp⟩ := stepC_next_path hm
     have hsat : Sat I cs.st.path := by rw [hp] at hsat'; exact (sat_append.1 hsat').1
-    obtain ⟨w, f, kcs, hrel, hback⟩ := hg I hI f0 h0 hsat
+    obtain ⟨w, f, kcs, hrel, hback⟩ := hg I hI hHI f0 h0 hsat
     obtain ⟨w', f', kcs', hrel', hb'⟩ :=
-      (stepC_sound (o := o) hs hI hmem hdep hcodes hS hcb hrel hsat).1 cs' hm hsat'
+      (stepC_sound (o := o) hs hI hmem hdep hcodes hS hcb (fun hbal => ⟨hob hbal, hH I hHI hbal⟩) hrel hsat).1 cs' hm
+        hsat'
     exact ⟨w', f', kcs', hrel', fun r hr => hback r (hb' r hr)⟩
-  · intro ce hm htag h hout I hI f0 h0 hsat'
+  · intro ce hm htag h hout I hI hHI f0 h0 hsat'
     have hsat : Sat I cs.st.path := by rw [← stepC_end_path hm]; exact hsat'
-    obtain ⟨w, f, kcs, hrel, hback⟩ := hg I hI f0 h0 hsat
-    obtain ⟨w', hrun, hW⟩ := (stepC_sound (o := o) hs hI hmem hdep hcodes hS hcb hrel hsat).2 ce hm htag h hout
+    obtain ⟨w, f, kcs, hrel, hback⟩ := hg I hI hHI f0 h0 hsat
+    obtain ⟨w', hrun, hW⟩ := (stepC_sound (o := o) hs hI hmem hdep hcodes hS hcb
+      (fun hbal => ⟨hob hbal, hH I hHI hbal⟩) hrel hsat).2 ce hm htag h hout
     exact ⟨w', hback _ hrun, hW⟩
 
 /-- **exploreC_sound.** -/
 theorem exploreC_sound (hs : SimpSound s) (hmem : cfg.maxMem + 32 ≤ p.memLimit) (hdep : 1024 ≤ p.maxDepth)
     (hcodes : ∀ a, w0.codeOf a = codeOf codes a) (hS : ∀ a prog, codeOf codes a = some prog → S a)
     (hcb : ∀ a prog, codeOf codes a = some prog → ∀ b ∈ prog, b < 256)
+    (hob : cfg.balances = true → OracleSound o) (hH : ∀ I, H I → cfg.balances = true → BalHyp I cfg w0)
     (fuel : Nat) : ∀ (steps : Nat) (wl : List CState) (acc : ResultC),
-    (∀ cs ∈ wl, GoodC p S w0 cs0 cs) → (∀ ce ∈ acc.ends, GoodEndC p S w0 cs0 ce) →
-    ∀ ce ∈ (exploreC s o cfg codes fuel steps wl acc).ends, GoodEndC p S w0 cs0 ce := by
+    (∀ cs ∈ wl, GoodC p S w0 cs0 H cs) → (∀ ce ∈ acc.ends, GoodEndC p S w0 cs0 H ce) →
+    ∀ ce ∈ (exploreC s o cfg codes fuel steps wl acc).ends, GoodEndC p S w0 cs0 H ce := by
   induction fuel with
   | zero =>
     intro steps wl acc hwl hacc
@@ -111,7 +115,7 @@ theorem exploreC_sound (hs : SimpSound s) (hmem : cfg.maxMem + 32 ≤ p.memLimit
       rw [exploreC_succ]
       split
       · exact ih _ _ _ (fun x hx => hwl x (List.mem_cons_of_mem _ hx)) hacc
-      · obtain ⟨hn, he⟩ := stepC_good (o := o) hs hmem hdep hcodes hS hcb (hwl cs (List.mem_cons_self ..))
+      · obtain ⟨hn, he⟩ := stepC_good (o := o) hs hmem hdep hcodes hS hcb hob hH (hwl cs (List.mem_cons_self ..))
         refine ih _ _ _ ?_ ?_
         · intro x hx
           rcases List.mem_append.1 hx with hx | hx
@@ -176,9 +180,10 @@ theorem exploreC_complete (hs : SimpSound s) (ho : OracleSound o) (hmem : cfg.ma
     (hdep : 1024 ≤ p.maxDepth) (hcodes : ∀ a, w0.codeOf a = codeOf codes a)
     (hS : ∀ a prog, codeOf codes a = some prog → S a)
     (hcb : ∀ a prog, codeOf codes a = some prog → ∀ b ∈ prog, b < 256)
-    {I : Interp} (hI : I.Std) {r : Evm.World × Evm.Halt} (fuel : Nat) :
+    {I : Interp} (hI : I.Std) (hb : cfg.balances = true → BalHyp I cfg w0) {r : Evm.World × Evm.Halt} (fuel : Nat) :
     ∀ (steps : Nat) (wl : List CState) (acc : ResultC),
-    (∃ cs ∈ wl, Sat I cs.st.path ∧ ∃ w f kcs, RelC I p S w0 cs w f kcs ∧ RunStack p w f kcs r) →
+    (∃ cs ∈ wl, Sat I cs.st.path ∧ ∃ w f kcs, RelC I p S w0 cs w f kcs ∧ RunStack p w f kcs r ∧
+        BBAll (cfg.balances = true) w kcs) →
     CoveredC I S w0 r (exploreC s o cfg codes fuel steps wl acc) := by
   induction fuel with
   | zero =>
@@ -187,7 +192,7 @@ theorem exploreC_complete (hs : SimpSound s) (ho : OracleSound o) (hmem : cfg.ma
     | nil => cases hm
     | cons cs1 wl => rw [exploreC_zero]; exact Or.inr (Or.inr (Or.inr rfl))
   | succ fuel ih =>
-    intro steps wl acc ⟨cs, hm, hsat, w, f, kcs, hrel, hrun⟩
+    intro steps wl acc ⟨cs, hm, hsat, w, f, kcs, hrel, hrun, hbb⟩
     cases wl with
     | nil => cases hm
     | cons cs1 wl =>
@@ -195,14 +200,15 @@ theorem exploreC_complete (hs : SimpSound s) (ho : OracleSound o) (hmem : cfg.ma
       split
       · exact exploreC_mono _ _ _ _ (Or.inr (Or.inr (Or.inl rfl)))
       · rcases List.mem_cons.1 hm with rfl | hm
-        · rcases stepC_complete (o := o) hs ho hI hmem hdep hcodes hS hcb hrel hsat hrun with
-            ⟨cs', hm', hsat', w', f', kcs', hrel', hrun'⟩ | ⟨ce, hme, hcov⟩ | hb
-          · exact ih _ _ _ ⟨cs', List.mem_append_left _ (List.mem_reverse.2 hm'), hsat', w', f', kcs', hrel', hrun'⟩
+        · rcases stepC_complete (o := o) hs ho hI hmem hdep hcodes hS hcb hb hrel hsat hrun hbb with
+            ⟨cs', hm', hsat', w', f', kcs', hrel', hrun', hbb'⟩ | ⟨ce, hme, hcov⟩ | hb
+          · exact ih _ _ _ ⟨cs', List.mem_append_left _ (List.mem_reverse.2 hm'), hsat', w', f', kcs', hrel', hrun',
+              hbb'⟩
           · exact exploreC_mono _ _ _ _ (Or.inl ⟨ce, List.mem_append_right _ hme, hcov⟩)
           · refine exploreC_mono _ _ _ _ (Or.inr (Or.inl ?_))
             simp only [ne_eq, List.append_eq_nil_iff, not_and]
             intro _; exact hb
-        · exact ih _ _ _ ⟨cs, List.mem_append_right _ hm, hsat, w, f, kcs, hrel, hrun⟩
+        · exact ih _ _ _ ⟨cs, List.mem_append_right _ hm, hsat, w, f, kcs, hrel, hrun, hbb⟩
 
 end
 
@@ -221,7 +227,7 @@ theorem relC_init {f0 : Evm.Frame} (hR0 : R I env ((codeOf codes this).getD []) 
     (hz : ∀ a, Modelled codes this a → ∀ slot, Evm.lookupD w0.storage (a, slot) = 0 ∧
       Evm.lookupD w0.transient (a, slot) = 0) :
     RelC I p (Modelled codes this) w0 (initC env codes this) w0 f0 [] := by
-  refine ⟨hR0, hthis, Or.inl rfl, hd0, ?_, ?_, List.Forall₂.nil⟩
+  refine ⟨hR0, hthis, Or.inl rfl, hd0, ?_, ?_, ChainWF.nil, List.Forall₂.nil⟩
   · show ∀ b ∈ (codeOf codes this).getD [], b < 256
     cases hc : codeOf codes this with
     | none => intro b hb; simp at hb
